@@ -19,7 +19,7 @@ for pid in all_ids:
         "evidence_file": "/verif/evidence/%s.json" % pid,
         "replay_cmd_template": "./check %s --replay {path}" % pid,
         "engine": "rapid-harness",
-        "level_claimed": {"category": CHECKS[pid]["level"], "text": t["level_text"], "design_ref": "DESIGN.md section 4/%s" % pid},
+        "level_claimed": {"category": CHECKS[pid]["level"], "text": t["level_text"] + " Families, caller behaviours and single heavy cases added later (sections 7.1 and 7.5 of DESIGN.md) run under the same commands; the tests and case counts per tier are listed in checks_table.py.", "design_ref": "DESIGN.md section 4/%s and 7.1" % pid},
         "level_note": t["level_note"],
         "technique": t["technique"],
     })
